@@ -828,14 +828,25 @@ Section AlgStepsProofs.
 End AlgStepsProofs.
 
 (* what a [Sub] rule that the checker accepted means *)
-Lemma sub_rule_sound {S} (eqb : S -> S -> bool) (old new : amap S) afters a srcs :
+Lemma sub_rule_sound {S} (eqb : S -> S -> bool) (ident : S -> nat) (old new : amap S) afters a srcs :
   (forall x y, eqb x y = true -> x = y) ->
-  rule_ok S eqb old new afters (Sub a srcs) = true ->
+  rule_ok S eqb ident old new afters (Sub a srcs) = true ->
   forall x, In x (lookup S a new) -> exists s, In s srcs /\ In x (src_sols S old new afters s).
 Proof.
   intros E H x Hx. simpl in H. rewrite forallb_forall in H. specialize (H x Hx).
   apply existsb_exists in H as (s & Hs & M). exists s. split; [exact Hs|].
   unfold smem in M. apply existsb_exists in M as (y & Hy & Exy). apply E in Exy. now subst.
+Qed.
+
+(* what an accepted [Fresh] rule means: the new objects are not among the objects exposed before *)
+Lemma fresh_rule_sound {S} (eqb : S -> S -> bool) (ident : S -> nat) (old new : amap S) afters a :
+  rule_ok S eqb ident old new afters (Fresh a) = true ->
+  forall x y, In x (lookup S a new) -> In y (flat_map snd old) -> ident x <> ident y.
+Proof.
+  intros H x y Hx Hy E. simpl in H. rewrite forallb_forall in H. specialize (H x Hx).
+  apply negb_true_iff in H. assert (existsb (fun y0 => Nat.eqb (ident x) (ident y0)) (flat_map snd old) = true) as C.
+  { apply existsb_exists. exists y. split; [exact Hy|]. now apply Nat.eqb_eq. }
+  congruence.
 Qed.
 
 (* ------------------------------------------------------------------------- *)
